@@ -915,7 +915,7 @@ class Qobj:
             dtype = _data.Dense
         return Qobj(_data.expm(self._data, dtype=dtype),
                     dims=self._dims,
-                    isherm=self._isherm,
+                    isherm=self._isherm or None,
                     copy=False,
                     dtype=dtype)
 
